@@ -598,9 +598,12 @@ def bases(n, k, p, start, count):
     return out
 
 
-MAPS1 = [([[2]], [0]), ([[0.5]], [0]), ([[-1]], [0]), ([[1]], [5]), ([[-3]], [2])]
+# binary-exact common rescalings to very small / large scales (a unit such as metres vs nanometres): absolute tolerances
+# anywhere in the adjustment show only there; the columns keep a common scale (no conditioning argument involved)
+_SC = (2.0 ** -30, 2.0 ** -45, 2.0 ** 40)
+MAPS1 = [([[2]], [0]), ([[0.5]], [0]), ([[-1]], [0]), ([[1]], [5]), ([[-3]], [2])] + [([[s_]], [0]) for s_ in _SC]
 MAPS2 = [([[2, 0], [0, 0.5]], [0, 0]), ([[1, 1], [0, 1]], [0, 0]), ([[0, 1], [1, 0]], [0, 0]),
-         ([[1, 0], [0, 1]], [3, -1]), ([[2, 0], [0, 0.5]], [3, -1])]
+         ([[1, 0], [0, 1]], [3, -1]), ([[2, 0], [0, 0.5]], [3, -1])] + [([[s_, 0], [0, s_]], [0, 0]) for s_ in _SC]
 MAPS1_T = MAPS1 + [([[4]], [-7]), ([[0.25]], [1])]
 MAPS2_T = MAPS2 + [([[1, 1], [0, 1]], [3, -1]), ([[0, 1], [1, 0]], [3, -1]), ([[1, 1], [1, -1]], [0, 0]),
                    ([[2, 1], [1, 1]], [-2, 5]), ([[0, -1], [1, 0]], [0, 0]), ([[1, 0], [-2, 1]], [1, 1])]
